@@ -22,7 +22,7 @@ theorem resume_step {H : Host} (wf : WF H.dir) (hq : H.eofQuirk = false) (st : S
     (plus : Bool) (h size c : Nat) (rest0 : Dir) (hp : Pos H.dir c rest0) (h24 : 24 ≤ size)
     (hnext : ∀ e r, real rest0 = e :: r → fuseLen plus e.name.length ≤ size)
     (hh : st.noOpendir = true ∨ ∃ fd, st.fds h = some fd)
-    (hserve : Fits size rest0 → Serveable H size c rest0) :
+    (hserve : Fits size rest0 → Serveable H size c rest0 (!st.noOpendir && st.cache h == some c)) :
     ∃ st' p, readReq H st plus h size c none = (st', .ok (p.map view)) ∧ Reply H st st' plus size rest0 p := by
   have hfits := fits_of_next wf hp size plus h24 hnext
   obtain ⟨st', out, hreq, hserved⟩ :=
@@ -132,19 +132,113 @@ def Adequate (H : Host) : St → Nat → Dir → List Step → Prop
     | (_, .error _) => True
     | (st2, .ok es) => Adequate H st2 (lastOff es c) (rem.drop es.length) more
 
+/-- a predicate on (step, state the walker's request is issued in, offset it resumes from), checked
+    along the *actual* walk -/
+def Along (H : Host) (P : Step → St → Nat → Prop) : St → Nat → List Step → Prop
+  | _, _, [] => True
+  | st, c, s :: more =>
+    P s (applyOps H st s.noise) c ∧
+    match readReq H (applyOps H st s.noise) s.plus s.h s.size c none with
+    | (_, .error _) => True
+    | (st2, .ok es) => Along H P st2 (lastOff es c) more
+
+theorem along_of_forall (H : Host) (P : Step → St → Nat → Prop) (steps : List Step)
+    (h : ∀ s ∈ steps, ∀ st c, P s st c) : ∀ (st : St) (c : Nat), Along H P st c steps := by
+  induction steps with
+  | nil => intro _ _; trivial
+  | cons s more ih =>
+    intro st c
+    refine ⟨h s (by simp) _ _, ?_⟩
+    rcases hr : readReq H (applyOps H st s.noise) s.plus s.h s.size c none with ⟨st2, res⟩
+    cases res with
+    | error e => trivial
+    | ok es => exact ih (fun s' hs' => h s' (by simp [hs'])) _ _
+
+theorem along_mono (H : Host) (P Q : Step → St → Nat → Prop) (hpq : ∀ s st c, P s st c → Q s st c) (steps : List Step) :
+    ∀ (st : St) (c : Nat), Along H P st c steps → Along H Q st c steps := by
+  induction steps with
+  | nil => intro _ _ _; trivial
+  | cons s more ih =>
+    intro st c h
+    obtain ⟨h1, h2⟩ := h
+    refine ⟨hpq _ _ _ h1, ?_⟩
+    rcases hr : readReq H (applyOps H st s.noise) s.plus s.h s.size c none with ⟨st2, res⟩
+    rw [hr] at h2
+    cases res with
+    | error e => trivial
+    | ok es => exact ih _ _ h2
+
+/-- executable twin of `Along` (for concrete instances) -/
+def alongB (H : Host) (PB : Step → St → Nat → Bool) : St → Nat → List Step → Bool
+  | _, _, [] => true
+  | st, c, s :: more =>
+    PB s (applyOps H st s.noise) c &&
+    match readReq H (applyOps H st s.noise) s.plus s.h s.size c none with
+    | (_, .error _) => true
+    | (st2, .ok es) => alongB H PB st2 (lastOff es c) more
+
+theorem along_of_bool (H : Host) (P : Step → St → Nat → Prop) (PB : Step → St → Nat → Bool)
+    (hpb : ∀ s st c, PB s st c = true → P s st c) (steps : List Step) :
+    ∀ (st : St) (c : Nat), alongB H PB st c steps = true → Along H P st c steps := by
+  induction steps with
+  | nil => intro _ _ _; trivial
+  | cons s more ih =>
+    intro st c h
+    simp only [alongB, Bool.and_eq_true] at h
+    obtain ⟨h1, h2⟩ := h
+    refine ⟨hpb _ _ _ h1, ?_⟩
+    rcases hr : readReq H (applyOps H st s.noise) s.plus s.h s.size c none with ⟨st2, res⟩
+    rw [hr] at h2
+    cases res with
+    | error e => trivial
+    | ok es => exact ih _ _ h2
+
+/-- was the cached cookie hit -/
+def hitOf (st : St) (h c : Nat) : Bool := !st.noOpendir && st.cache h == some c
+
+/-- the guard of the linear-scan fallback for the walker's request `s`, issued in state `st'` to
+    resume from offset `c`: if the cached cookie does not hit and `lseek64` cannot take the cookie
+    (above i64::MAX, or EINVAL), the scan re-reads the directory from the start with the request's
+    size, so every record up to and including the one whose cookie is `c` must fit `s.size` -/
+def ScanGuard (H : Host) : Step → St → Nat → Prop := fun s st' c =>
+  hitOf st' s.h c = false → (c > I64_MAX ∨ H.seekErr c = some EINVAL) →
+    ∀ pre e rest, H.dir = pre ++ e :: rest → e.cookie = c → ∀ x ∈ pre ++ [e], reclen x ≤ s.size
+
+/-- a decidable sufficient condition for `ScanGuard`: the request resumes from 0 (never scanned
+    when `lseek64(0)` works), or its buffer holds every record -/
+def scanGuardB (H : Host) : Step → St → Nat → Bool := fun s _ c =>
+  decide (c = 0) || H.dir.all (fun e => decide (reclen e ≤ s.size))
+
+theorem scanGuard_of_bool (H : Host) (h0 : H.seekErr 0 = none) (s : Step) (st : St) (c : Nat)
+    (h : scanGuardB H s st c = true) : ScanGuard H s st c := by
+  intro _ hbad pre e rest hd _ x hx
+  simp only [scanGuardB, Bool.or_eq_true, decide_eq_true_eq, List.all_eq_true] at h
+  rcases h with h | h
+  · subst h
+    rcases hbad with hb | hb
+    · simp [I64_MAX] at hb
+    · rw [h0] at hb; cases hb
+  · apply h x
+    rw [hd]
+    rcases List.mem_append.mp hx with h1 | h1
+    · exact List.mem_append_left _ h1
+    · rw [List.mem_singleton.mp h1]; simp
+
 theorem walk_complete {H : Host} (wf : WF H.dir) (hq : H.eofQuirk = false) (W : List Nat) (nod : Bool) :
     ∀ (steps : List Step) (st : St) (c : Nat) (rest : Dir), Inv st → st.noOpendir = nod → Open st W →
       Pos H.dir c rest →
-      (∀ s ∈ steps, (∀ op ∈ s.noise, ∀ h ∈ W, op ≠ .releasedir h) ∧ (nod = true ∨ s.h ∈ W) ∧
-        (∀ c' rest', Pos H.dir c' rest' → Fits s.size rest' → Serveable H s.size c' rest')) →
+      (∀ s ∈ steps, (∀ op ∈ s.noise, ∀ h ∈ W, op ≠ .releasedir h) ∧ (nod = true ∨ s.h ∈ W)) →
+      Along H (fun s st' c' => ∀ rest', Pos H.dir c' rest' → Fits s.size rest' →
+        Serveable H s.size c' rest' (hitOf st' s.h c')) st c steps →
       Adequate H st c (real rest) steps → (real rest).length < steps.length →
       (walk H st c steps).flatten = (real rest).map view ∧ (walk H st c steps).getLast? = some [] := by
   intro steps
   induction steps with
-  | nil => intro st c rest _ _ _ _ _ _ hlen; simp at hlen
+  | nil => intro st c rest _ _ _ _ _ _ _ hlen; simp at hlen
   | cons s more ih =>
-    intro st c rest inv hnod hW hp hsteps hadq hlen
-    obtain ⟨hnoise, hh, hserve⟩ := hsteps s (by simp)
+    intro st c rest inv hnod hW hp hsteps halong hadq hlen
+    obtain ⟨hnoise, hh⟩ := hsteps s (by simp)
+    obtain ⟨hserve, halong'⟩ := halong
     obtain ⟨inv1, hnod1, hW1⟩ := applyOps_keeps H W s.noise hnoise st inv hW
     obtain ⟨h24, hnext, hadq'⟩ := hadq
     have hh1 : (applyOps H st s.noise).noOpendir = true ∨ ∃ fd, (applyOps H st s.noise).fds s.h = some fd := by
@@ -152,10 +246,11 @@ theorem walk_complete {H : Host} (wf : WF H.dir) (hq : H.eofQuirk = false) (W : 
       · left; rw [hnod1, hnod, hn]
       · right; exact Option.isSome_iff_exists.mp (hW1 s.h hw)
     obtain ⟨st2, p, hreq, hreply⟩ :=
-      resume_step wf hq (applyOps H st s.noise) inv1 s.plus s.h s.size c rest hp h24 hnext hh1 (hserve c rest hp)
+      resume_step wf hq (applyOps H st s.noise) inv1 s.plus s.h s.size c rest hp h24 hnext hh1 (hserve rest hp)
     simp only [walk, hreq]
-    rw [hreq] at hadq'
+    rw [hreq] at hadq' halong'
     simp only [List.length_map] at hadq'
+    change Along H _ st2 (lastOff (p.map view) c) more at halong'
     by_cases hpe : p = []
     · -- nothing left: the walk ends with this empty reply
       subst hpe
@@ -173,14 +268,14 @@ theorem walk_complete {H : Host} (wf : WF H.dir) (hq : H.eofQuirk = false) (W : 
       obtain ⟨A, B, e, hsplit, hlast, hrealB⟩ := split_at_real_prefix rest p hreply.isPrefix hpe
       have hoff : lastOff (p.map view) c = e.cookie := by
         simp [lastOff, List.getLast?_map, hlast, view]
-      rw [hoff] at hadq' ⊢
+      rw [hoff] at hadq' halong' ⊢
       have hp2 : Pos H.dir e.cookie B := by rw [hsplit] at hp; exact pos_skip hp
       obtain ⟨_, hnod2, _, hopen2⟩ := hreply.kept
       have hW2 : Open st2 W := fun h hh => by rw [hopen2]; exact hW1 h hh
       have hlenp : 1 ≤ p.length := List.length_pos_iff.mpr hpe
       have hpl : p.length ≤ (real rest).length := hreply.isPrefix.length_le
       obtain ⟨ih1, ih2⟩ := ih st2 e.cookie B hreply.kept.1 (by rw [hnod2, hnod1, hnod]) hW2 hp2
-        (fun s' hs' => hsteps s' (by simp [hs'])) (by rw [hrealB]; exact hadq')
+        (fun s' hs' => hsteps s' (by simp [hs'])) halong' (by rw [hrealB]; exact hadq')
         (by rw [hrealB]; simp only [List.length_drop, List.length_cons] at hlen ⊢; omega)
       refine ⟨?_, ?_⟩
       · simp only [List.flatten_cons, ih1, hrealB]
